@@ -193,6 +193,13 @@ def run(ctx, res):
     for i in range(0, len(items), 2000):
         judge(ctx, res, execute(ctx, items[i : i + 2000], want_spec=False))
     multi_cases(ctx, res, ctx.budget(25, 300))
+    # histories on ONE input object: costs changed in place between calls; each call must answer like a fresh input
+    rng = ctx.rng
+    pool = [(c, a) for c, a in items if solvers.nontrivial(c)]
+    for c, a in rng.sample(pool, min(len(pool), ctx.budget(30, 300))):
+        other = dict(solvers.full_costs(c), **solvers.label_costs(rng))
+        if not solvers.inplace_history(res, c, other, a, what_prefix="unordered solver reused on one input object: "):
+            break
 
 
 def shrink(ctx, violation):
@@ -211,6 +218,8 @@ def shrink(ctx, violation):
 def replay(ctx, data):
     inp = data["input"]
     r = Result()
+    if "history" in inp:
+        return solvers.replay_inplace(inp)
     judge(ctx, r, execute(ctx, [(inp["case"], inp["algo"])], want_spec=False))
     ok = not r.concrete
     return ok, ("ok: property holds on this input" if ok else "still fails: " + r.concrete[0]["what"])
